@@ -22,6 +22,7 @@ class Helper:
 
 
 REG = {}
+FRAME = [None]      # (Q, Q^T): express the vortex-kernel atoms of this run in the frame rotated by Q (rotation lemma)
 ACTIVE = {}     # real function object id -> stub, consulted by sx.patched()
 
 
@@ -123,6 +124,7 @@ def activate(mapping):
 
 def deactivate():
     ACTIVE.clear()
+    FRAME[0] = None
 
 
 # --------------------------------------------------------------------------------------------- structures.utils
@@ -178,6 +180,9 @@ def eval_mtx_stubs():
 
     hsv.reflect = True           # lemma proved in helper.eval_mtx: semi(S u, S r) == -S semi(u, r)
 
+    def _rot(Q, v):
+        return np.array([sum((Q[i, j] * v[j] for j in range(3)), RF({})) for i in range(3)], dtype=object)
+
     def _apply(h, a, b):
         a = np.asarray(a)
         b = np.asarray(b)
@@ -186,7 +191,13 @@ def eval_mtx_stubs():
         b = np.broadcast_to(b, lead + (3,))
         out = np.empty(lead + (3,), dtype=object).view(S.SymArray)
         for idx in np.ndindex(*lead):
-            out[idx] = fun_vec(h, [a[idx], b[idx]])
+            if FRAME[0] is not None:
+                # rotation lemma (proved by c09.kernel_rotation): f(Q a, Q b) == Q f(a, b) -- express the atom in the
+                # rotated frame: f(a, b) = Q^T f(Q a, Q b)
+                Q, Qt = FRAME[0]
+                out[idx] = _rot(Qt, fun_vec(h, [_rot(Q, a[idx]), _rot(Q, b[idx])]))
+            else:
+                out[idx] = fun_vec(h, [a[idx], b[idx]])
         return out
 
     def _apply_d(h, a, b, deriv, pos):
